@@ -11,7 +11,7 @@ import ast
 import z3
 
 from .sym import (SV, Unsupported, NONE, MARKER, mk_int, mk_bool, fresh, INT,
-                  BOOL, KS, ELEM_SORT, ELEM_KIND, KIND_SORT)
+                  BOOL, KS, ELEM_SORT, ELEM_KIND, KIND_SORT, US)
 from .engine import FIELDS, CLASS_IDS
 
 TK = z3.Function("to_key", INT, KS)
@@ -113,6 +113,8 @@ class SpecMixin:
         if kind == "cls":
             return SV("cls", None, extra)
         z = fresh(name, KIND_SORT[kind])
+        if kind == "list":
+            st.assume(z > 0)
         if kind == "ref":
             st.assume(z >= 0)
             if extra:
@@ -199,6 +201,11 @@ class SpecMixin:
             return self.binop(st, n.op, a, b)
         if t is ast.IfExp:
             c = self.as_bool(st, self.sp(n.test, st, env, ctx))
+            cs = z3.simplify(c)
+            if z3.is_true(cs):          # statically decided (shapes): only that arm is meaningful
+                return self.sp(n.body, st, env, ctx)
+            if z3.is_false(cs):
+                return self.sp(n.orelse, st, env, ctx)
             a = self.sp(n.body, st, env, ctx)
             b = self.sp(n.orelse, st, env, ctx)
             if a.kind == "none" and b.kind == "ref":
@@ -403,6 +410,17 @@ class SpecMixin:
             return mk_int(self.hget(st, "$it_pos", args[0].z))
         if f == "it_pairs":
             return mk_bool(self.hget(st, "$it_pairs", args[0].z))
+        if f == "is_tuple":    # the sequence object is a Python tuple
+            return mk_bool(self.hget(st, "$istuple", args[0].z)) if args[0].kind == "list" \
+                else mk_bool(args[0].kind == "tuple")
+        if f in ("is_key", "is_val", "is_ref"):
+            return mk_bool({"is_key": US.is_UK, "is_val": US.is_UV, "is_ref": US.is_UR}[f](args[0].z))
+        if f == "key_of":
+            return SV("K", US.uk(args[0].z))
+        if f == "val_of":
+            return SV("V", US.uv(args[0].z))
+        if f == "ref_of":
+            return SV("ref", US.ur(args[0].z))
         if f == "kind_of":     # static shape of a value: 'none', 'int', 'tuple2', ...
             a = args[0]
             return SV("str", None, a.kind + (str(len(a.x)) if a.kind == "tuple" else ""))
